@@ -14,6 +14,7 @@ C19.h  NULL never flows into a %s conversion
 C19.i  token text is NUL-free: literal scanners diagnose a raw NUL byte
 """
 import math
+import re
 import facts
 from facts import AnalysisBroken, children, unwrap, unwrap_all, walk
 from eai import Interp, Obj, Ptr, Sym, SV, Terminal, Unsupported, StructVal, explore, Budget, read_cstr
@@ -352,6 +353,42 @@ def rule_flush(chk, prog, tier):
                and any(callee_name(c) == 'ferror' and not stream_arg(c, 0, 'stdout') for c in walk(gg.fn) if c.get('kind') == 'CallExpr')]
     r.instance(bool(consult), 'input-ferror', '%s:%s' % (readers[0]['_file'], readers[0].get('line')),
                'the input is read with getc() in %s but ferror() is never consulted: a read error is indistinguishable from end of file' % [f['name'] for f in readers])
+    # ... and for EVERY input file: wherever a scanner is given up for the next one (the function that closes the stream), the error test lies on every path from the token read to the close
+    nclose = 0
+    for gg in graphs.values():
+        closers = [n for n in gg.nodes if n.ast is not None and any(callee_name(c) in ('scanclose', 'fclose') for c in walk(n.ast) if c.get('kind') == 'CallExpr')]
+        reads = [n for n in gg.nodes if n.ast is not None and any(callee_name(c) == 'scankind' for c in walk(n.ast) if c.get('kind') == 'CallExpr')]
+        if not closers or not reads: continue
+        for cl in closers:
+            nclose += 1
+            def eof_test(n):
+                """`<expr> == TEOF` / `<expr> != TEOF` as a branch condition -> '==' / '!=' (the token kind just read is compared)"""
+                a = unwrap_all(n.ast) if n.kind == 'cond' and n.ast is not None else None
+                if a is not None and a.get('kind') == 'BinaryOperator' and a.get('opcode') in ('==', '!='):
+                    rhs = unwrap_all(children(a)[1])
+                    if rhs.get('kind') == 'DeclRefExpr' and rhs['referencedDecl'].get('name') == 'TEOF': return a['opcode']
+                return None
+            # paths are followed with what they know about `kind == TEOF` (the error test is behind `kind == TEOF &&`, the close behind `kind != TEOF ||`)
+            seen = set(); work = [(m, None) for rd in reads for m, _ in rd.succ]; reached = False
+            while work:
+                x, fact = work.pop()
+                if (x.id, fact) in seen: continue
+                seen.add((x.id, fact))
+                if x.ast is not None and any(callee_name(c) == 'ferror' and not stream_arg(c, 0, 'stdout') for c in walk(x.ast) if c.get('kind') == 'CallExpr'): continue
+                if x.id == cl.id: reached = True; break
+                if x.id in {rd.id for rd in reads}: continue
+                op = eof_test(x)
+                for m, lab in x.succ:
+                    f2 = fact
+                    if op is not None and lab in (True, False):
+                        iseof = (lab is True) == (op == '==')
+                        if fact is not None and fact != iseof: continue         # contradicts what an earlier test on this path established
+                        f2 = iseof
+                    work.append((m, f2))
+            r.instance(not reached, 'input-ferror-before-close:%s' % gg.fn['name'], '%s:%s' % (gg.fn['_file'], cl.line),
+                       '%s() can close an input stream after reading its end without testing ferror(): a read error on any input but the last is taken for a clean end of file' % gg.fn['name'])
+    if nclose == 0:
+        raise AnalysisBroken('no function that reads tokens and closes an input found (scan() expected)')
     r.exhaustive = True
 
 
@@ -884,9 +921,80 @@ def rule_token_spellings(chk, prog, tier, rid='C19.t'):
             bad = direct or (origins.get(vid, (None,))[0])
             r.instance(not bad, 'token-spelling:%s:free(%s)' % (fn['name'], a.get('name') or (a.get('referencedDecl') or {}).get('name') or a.get('kind')), '%s:%s' % (fn['_file'], c.get('line') or fn.get('line')),
                        '%s() frees `%s`, which holds the spelling of a token (%s): if the token came out of a macro expansion the macro\'s replacement list still points to it' % (fn['name'], (a.get('referencedDecl') or {}).get('name'), bad))
+    # the preprocessor itself: tokens are copied by value out of a replacement list, so the list's spellings live on in the parser's tokens, names and members - also after #undef
+    for fn in prog.all_funcs():
+        for c in _walk(fn):
+            if c.get('kind') != 'CallExpr' or cfg.callee_name(c) not in ('free', 'realloc', 'xreallocarray'): continue
+            a = _ua(_ch(c)[1])
+            if a.get('kind') == 'MemberExpr' and a.get('name') == 'lit' and 'struct token' in _ch(a)[0].get('type', {}).get('qualType', ''):
+                r.violation('token-spelling:%s:free(<token>.lit)' % fn['name'], '%s:%s' % (fn['_file'], c.get('line') or fn.get('line')),
+                            '%s() frees the spelling of a token: copies of the token (identifiers bound as declaration, member or label names) still point to it' % fn['name'])
     if ntok < 10:
         raise AnalysisBroken('only %d variables found that receive a token spelling' % ntok)
     r.samples.append('%d variables receive a token spelling, %d release sites above the preprocessor inspected' % (ntok, nfree))
+    r.exhaustive = True
+
+
+DIVISORS_REVIEWED = {
+    # (file, function, divisor) -> why it cannot be zero
+    ('eval.c', 'binary', 'r->u.constant.u'): 'constant folding: eval() does not call binary() for / and % with a zero divisor - decided on value classes by rule C04.c',
+    ('eval.c', 'binary', 'r->u.constant.i'): 'idem (C04.c), including MIN / -1',
+    ('eval.c', 'binary', 'r->u.constant.f'): 'floating division: no trap',
+    ('expr.c', 'stringconcat', 'width'): 'the element width of a string literal: set by a switch over the prefix to 1, 2 or 4 (C14.s decides the table)',
+    ('qbe.c', 'typemembers', 'sub->align'): 'alignment of a complete scalar or structure type (members of incomplete type are rejected by addmember): at least 1',
+    ('qbe.c', 'typemembers', 'sub->size'): 'evaluated only when m->type->size > sub->size, and an array of zero-size elements has size 0',
+    ('qbe.c', 'emitdata', 'cur->expr->type->base->size'): 'cur->expr is a string literal (tested just before): its element type is a character type of size 1, 2 or 4',
+    ('qbe.c', 'emitdata', 'w'): 'idem: initialised from the same element size',
+}
+
+
+def rule_division_guards(chk, prog, tier):
+    r = chk.rule('C19.u', 'no host division or remainder in the compiler can have a zero divisor: the divisor is a non-zero constant, is tested for being non-zero by a conjunct to its left in the same condition, '
+                 'or is one of the reviewed divisors that cannot be zero by construction; an arithmetic trap (SIGFPE) is not one of the ways the compiler may end', floor=12)
+    from props.c10 import expr_text
+    nconst = 0; n = 0
+    seen_reviewed = set()
+    for fn in prog.all_funcs():
+        # divisions guarded inside a conjunction: X && ... (a / X)
+        guarded = set()
+        def conj(e, known):
+            e2 = unwrap_all(e)
+            if e2.get('kind') == 'BinaryOperator' and e2.get('opcode') == '&&':
+                l, rr = children(e2)
+                k2 = conj(l, known)
+                conj(rr, k2)
+                return k2
+            mark(e2, known)
+            t = expr_text(e2)
+            new = set(known); new.add(t)
+            m = re.match(r'^\((.*) (>|!=) 0\)$', t)
+            if m: new.add(m.group(1))
+            return new
+        def mark(e, known):
+            for b in walk(e):
+                if b.get('kind') in ('BinaryOperator', 'CompoundAssignOperator') and b.get('opcode') in ('/', '%', '/=', '%='):
+                    if expr_text(children(b)[1]) in known: guarded.add(id(b))
+        for b in walk(fn):
+            if b.get('kind') == 'BinaryOperator' and b.get('opcode') == '&&': conj(b, set())
+        for b in walk(fn):
+            if b.get('kind') not in ('BinaryOperator', 'CompoundAssignOperator') or b.get('opcode') not in ('/', '%', '/=', '%='): continue
+            d = unwrap_all(children(b)[1])
+            if d.get('kind') in ('IntegerLiteral', 'FloatingLiteral', 'UnaryExprOrTypeTraitExpr') or (d.get('kind') == 'BinaryOperator' and all(unwrap_all(c).get('kind') in ('IntegerLiteral', 'UnaryExprOrTypeTraitExpr') for c in children(d))):
+                if d.get('kind') == 'IntegerLiteral' and int(d.get('value', '1')) == 0:
+                    r.violation('division:%s:%s by literal 0' % (fn['_file'], fn['name']), '%s:%s' % (fn['_file'], b.get('line')), 'division by the constant 0')
+                nconst += 1; continue
+            n += 1
+            text = expr_text(d)
+            key = 'division:%s:%s by %s' % (fn['_file'], fn['name'], text)
+            where = '%s:%s' % (fn['_file'], b.get('line') or fn.get('line'))
+            if id(b) in guarded:
+                r.passed(key, where); continue
+            why = DIVISORS_REVIEWED.get((fn['_file'], fn['name'], text))
+            if why: seen_reviewed.add((fn['_file'], fn['name'], text))
+            r.instance(bool(why), key, where, '%s() divides by `%s`, which no conjunct to its left tests and which is not a reviewed divisor: a zero value traps in the compiler' % (fn['name'], text))
+    if n < 10 or nconst < 10:
+        raise AnalysisBroken('only %d variable and %d constant divisors found' % (n, nconst))
+    r.samples.append('%d divisions by constants, %d by expressions (%d reviewed divisors in use)' % (nconst, n, len(seen_reviewed)))
     r.exhaustive = True
 
 
@@ -910,6 +1018,7 @@ def run(chk, tier):
     chk.guard('C19.n', lambda: rule_objsize(chk, prog, tier))
     chk.guard('C19.s', lambda: rule_released_arguments(chk, prog, tier))
     chk.guard('C19.t', lambda: rule_token_spellings(chk, prog, tier))
+    chk.guard('C19.u', lambda: rule_division_guards(chk, prog, tier))
     from props import c14, c04
     chk.guard('C14.a', lambda: c14.rule_escapes(chk, prog, tier))       # the scanner invariant decodechar's assertions rely on
     chk.guard('C14.c', lambda: c14.rule_utf8dec(chk, prog, tier))       # ... and the encoders' assert(0): the decoder hands on scalar values only
